@@ -21,6 +21,20 @@ LIBHTTP = 'mem:lib,sql:lib,sqlre:lib,mem:http,sql:http'
 
 PROPS = {}
 
+def relabel(orc, sentence):
+    """an oracle of another property, evaluated for this one (its failures are reported under this property's sentence)"""
+    def f(run):
+        out = []
+        for x in orc(run):
+            x = dict(x)
+            x['sentence'] = sentence + ' [' + x.get('sentence', '') + ']'
+            out.append(x)
+        return out
+    return f
+
+def sched(n, **kw):
+    return {'scen': 'sched', 'args': dict(kw), 'n': n}
+
 def P(pid, **kw):
     kw.setdefault('module', f'Tcs.Props.{pid}')
     kw.setdefault('theorems', [])
@@ -36,16 +50,16 @@ P('C01', theorems=['Tcs.C01_stored_eq_accepted', 'Tcs.C01_no_shared_parent', 'Tc
   plan={'quick': [hist('default', 260, LIBHTTP)], 'thorough': [hist('default', 4000, LIBHTTP), hist('long', 600, LIBHTTP)]})
 P('C02', theorems=['Tcs.C02_spec', 'Tcs.C02_atomic_compare_append', 'Tcs.C02_new_id_never_issued'],
   owned={'av.kind', 'av.id', 'av.latest', 'dump.own.latest', 'dump.own.versions', 'dump.own.children', 'dump.own.since', 'http.status.av', 'http.headers.av'},
-  oracles=[O.o_c02],
-  plan={'quick': [hist('default', 220, LIBHTTP)], 'thorough': [hist('default', 4000, LIBHTTP)]})
+  oracles=[O.o_c02, relabel(O.o_c03, 'C02: an AddVersion is accepted exactly when its parent is the latest version at that moment, also when requests overlap')],
+  plan={'quick': [hist('default', 220, LIBHTTP), sched(60, mix='av', corpus='0')], 'thorough': [hist('default', 4000, LIBHTTP), sched(1500, mix='av', corpus='0')]})
 P('C07', theorems=['Tcs.C07_immutable', 'Tcs.C07_prefix', 'Tcs.C07_immutable_sql', 'Tcs.C07_immutable_mem'],
   owned={'gcv.kind', 'gcv.ids', 'gcv.payload'},
   oracles=[O.o_c07],
   plan={'quick': [hist('c07', 220, LIBHTTP)], 'thorough': [hist('c07deep', 2500, LIBHTTP)]})
 P('C08', theorems=['Tcs.C08_decision', 'Tcs.C08_matches_add_version', 'Tcs.C08_found_is_the_child', 'Tcs.C08_latest_not_found', 'Tcs.C08_on_backend'],
   owned={'gcv.kind', 'av.kind', 'http.status.gcv', 'http.status.av'},
-  oracles=[O.o_c08],
-  plan={'quick': [hist('c08', 220, LIBHTTP)], 'thorough': [hist('c08', 3000, LIBHTTP)]})
+  oracles=[O.o_c08, relabel(O.o_c03, 'C08: GetChildVersion answers not-found / gone exactly as an AddVersion at that moment would be accepted / rejected, also when requests overlap')],
+  plan={'quick': [hist('c08', 220, LIBHTTP), sched(60, mix='gcvav', corpus='0')], 'thorough': [hist('c08', 3000, LIBHTTP), sched(1500, mix='gcvav', corpus='0')]})
 P('C10', theorems=['Tcs.C10_accept_iff', 'Tcs.C10_window_five', 'Tcs.C10_told_success', 'Tcs.C10_effect', 'Tcs.C10_on_chain', 'Tcs.C10_moves_forward', 'Tcs.C10_anc_grows', 'Tcs.C10_on_backend'],
   owned={'snap.accept', 'dump.own.snap', 'dump.own.since', 'dump.own.ts', 'dump.own.data', 'as.kind'},
   oracles=[O.o_c10],
@@ -114,7 +128,7 @@ P('C14', theorems=['Tcs.C14_decode_respond', 'Tcs.C14_handler_uses_respond', 'Tc
 P('C15', theorems=['Tcs.C15_refused', 'Tcs.C15_unknown_route', 'Tcs.C15_refused_no_storage', 'Tcs.C15_limit_inclusive', 'Tcs.C15_oversized', 'Tcs.C15_no_5xx', 'Tcs.serve_factor'],
   owned={'http.status', 'noop.dump', 'calls.txns'},
   oracles=[O.o_c15],
-  plan={'quick': [grammar(16, 160, lists='none,one'), grammar(2, 40, big='1', backends='mem', lists='none')],
+  plan={'quick': [grammar(16, 160, lists='none,one'), grammar(2, 24, big='1', backends='mem', lists='none')],
         'thorough': [grammar(160, 300, lists='none,one,many'), grammar(8, 60, big='1', backends='mem,sql', lists='none')]})
 P('C16', theorems=['Tcs.C16_unlisted', 'Tcs.C16_unlisted_403', 'Tcs.C16_listed_transparent', 'Tcs.C16_no_list', 'Tcs.C16_empty_list', 'Tcs.serve_factor'],
   owned={'http.status', 'calls.txns', 'noop.dump'},
@@ -123,7 +137,8 @@ P('C16', theorems=['Tcs.C16_unlisted', 'Tcs.C16_unlisted_403', 'Tcs.C16_listed_t
 P('C20', theorems=['Tcs.C20_all_responses', 'Tcs.C20_value', 'Tcs.C20_wrapper_idempotent'],
   owned={'http.cache'},
   oracles=[O.o_c20],
-  plan={'quick': [grammar(12, 160), hist('default', 40, 'mem:http,sql:http')], 'thorough': [grammar(120, 300), hist('default', 600, 'mem:http,sql:http')]})
+  plan={'quick': [grammar(12, 160), hist('default', 40, 'mem:http,sql:http'), {'scen': 'fault', 'args': {}, 'n': 8}],
+        'thorough': [grammar(120, 300), hist('default', 600, 'mem:http,sql:http'), {'scen': 'fault', 'args': {}, 'n': 100}]})
 P('C06', theorems=['Tcs.C06_assemble', 'Tcs.C06_chunking_irrelevant', 'Tcs.C06_split_anywhere', 'Tcs.C06_version_roundtrip', 'Tcs.C06_snapshot_roundtrip', 'Tcs.C06_response_body', 'Tcs.assemble_spec'],
   owned={'gcv.payload', 'snap.payload', 'http.body.gcv', 'http.body.gs', 'gcv.ids', 'snap.vid'},
   oracles=[O.o_c06],
